@@ -574,9 +574,62 @@ def replay_request(res):
     return None
 
 
+def job_psd_form(n, timeout_ms):
+    """with the eigh contract (A = V diag(w) V^H, V unitary, w real) the real psd_proj body must compute V diag(max(w,0)) V^H
+    elementwise: out[i,j] = sum_l V[i,l] max(w[l],0) conj(V[j,l]).  Matrix order n concrete (structural bound)."""
+    rec = record(THRESH, "psd_proj")[0]
+    P, thresh, util = _ns()
+    seen = []
+
+    class XP(type(snp.NP)):
+        class linalg:
+            @staticmethod
+            def eigh(a):
+                seen.append(a)
+                return SArr.input("w", [n], valued=True).real, SArr.input("V", [n, n], valued=True)
+
+            @staticmethod
+            def eig(a):
+                raise core.Unsupported("numpy.linalg.eig has no orthonormality contract")
+    xp = XP()
+    thresh._ns["backend"] = _backend_with(xp)
+    thresh._ns["np"] = xp
+
+    def run():
+        del seen[:]
+        y = SArr.input("y", [n, n], valued=True)
+        return P.PsdProj([n, n])(Sym(z3.Real("alpha")), y), list(seen)
+    results = explore(run)
+
+    def post(r):
+        if r.kind != "return":
+            return [("no-exception(%s)" % type(r.value).__name__, [], z3.BoolVal(False))]
+        out, calls = r.value
+        y = SArr.input("y", [n, n], valued=True)
+        w, V = SArr.input("w", [n], valued=True), SArr.input("V", [n, n], valued=True)
+        obs = [_shape_ob(out, [n, n]), ("eigh-called-once", [], z3.BoolVal(len(calls) == 1))]
+        if len(calls) != 1 or len(out.shape) != 2:
+            return obs
+        for i in range(n):
+            for j in range(n):
+                a = calls[0].elem((z3.IntVal(i), z3.IntVal(j))).value()
+                yij, yji = y.elem((z3.IntVal(i), z3.IntVal(j))).value(), y.elem((z3.IntVal(j), z3.IntVal(i))).value()
+                obs.append(("eigh-of-the-hermitian-part[%d,%d]" % (i, j), [], z3.And(2 * a.re == yij.re + yji.re, 2 * a.im == yij.im - yji.im)))
+                want = C(0)
+                for l in range(n):
+                    wl = w.elem((z3.IntVal(l),)).value().re
+                    wp = C(z3.If(wl < 0, z3.RealVal(0), wl))
+                    want = want + V.elem((z3.IntVal(i), z3.IntVal(l))).value() * wp * V.elem((z3.IntVal(j), z3.IntVal(l))).value().conjugate()
+                got = out.elem((z3.IntVal(i), z3.IntVal(j))).value()
+                obs.append(("V*max(w,0)*V^H[%d,%d]" % (i, j), [], z3.And(got.re == want.re, got.im == want.im)))
+        return obs
+    obs, covers = path_obligations("C11/psd_proj/form,n=%d" % n, results, post, instance="n=%d" % n, fn_record=rec)
+    return check_obligations(obs, timeout_ms) + covers
+
+
 def jobs(tier):
     M = "contracts.C11"
-    js = [Job(M, "job_psd"), Job(M, "job_soft_lemma")]
+    js = [Job(M, "job_psd"), Job(M, "job_soft_lemma"), Job(M, "job_psd_form", n=2), Job(M, "job_psd_form", n=3)]
     for rank in (1, 2):
         js += [Job(M, "job_soft", rank=rank, via="thresh"), Job(M, "job_soft", rank=rank, via="prox"), Job(M, "job_hard", rank=rank),
                Job(M, "job_box", rank=rank), Job(M, "job_conj", rank=rank), Job(M, "job_unitary", rank=rank), Job(M, "job_noop_call", rank=rank),
